@@ -13,7 +13,7 @@ var _ = verifRegister("C27", streamC27)
 // streamC27: real `restic rewrite` with pattern flags on small generated snapshots; the listing
 // of the new snapshot, its summary and the unchanged-snapshot detection are recorded.
 func streamC27(h *H) {
-	ntrees := h.N(40, 800)
+	ntrees := h.N(40, 240)
 	perTree := 5
 	for t := 0; t < ntrees; t++ {
 		tree := a5GenTree(h, 0, 5)
